@@ -110,6 +110,7 @@ def run_encrypt(ctx, tr, d, key: bytes, keyname, size, seed, kid, halg, via, k, 
         pt = bytes([e_[(k // 4) % 6]]) + pt[1:-1] + (bytes([e_[(k // 24) % 6]]) if size > 1 else b"")
     fw.write_bytes(pt)
     core.through_link(fw, (k * 3 + k // 5) % 5 == 2)
+    fw = core.through_dotdot(fw, k % 7 == 3)
     out = out or d / f"out{k}"   # a given directory still holds the artifacts of the previous run
     out.mkdir(exist_ok=True)
     if via == "cli":
